@@ -23,6 +23,26 @@ CHECKS.update({
    note="Trusted: PCRE and Python re agree on the enumerated grammar (expressions rejected by either are excluded and counted); null and empty QString are the same text."),
 })
 
+VFS_NOTE = "Trusted: the interposer sees every file-system call Qt makes (vacuity counters: rotations, removals, gzip files decoded); virtual clock/mtime model (ms granularity, set at create/write, preserved by rename); zlib as the independent gzip decoder; TZ=UTC."
+CHECKS.update({
+ "C05": dict(engine="vfs", level=MC, design="§5, §7 C05",
+   technique="exhaustive enumeration of operation histories (write kinds, day changes, restarts) on the real RotatingFileSink over interposed libc with virtual clock; byte-stream reference oracle after every operation",
+   text="Every operation history up to the depth bound, for every enumerated (size limit, count limit, option set, file-name shape), is executed on the real sink; after every operation the directory is read back (gzip decoded independently) and must continue the written byte stream exactly: no record lost, duplicated, reordered or split; files vanish only under retention.",
+   note=VFS_NOTE),
+ "C06": dict(engine="vfs", level=MC, design="§5, §7 C06",
+   technique="exhaustive history enumeration + straight-line index-crossing histories under tied/untied virtual timestamps on the real sink; per-unlink system-call monitor and survivor-contiguity oracle",
+   text="Every history up to the depth bound for N in {<=0,1,2,3,..}, plus 12/102 consecutive rotations crossing index 9->10 and 99->100 under tied and 1 ms timestamps, with look-alike foreign files present: after every operation at most N files, survivors are the most recent contiguous stretch, nothing deleted for N<=0, nothing rotated for N=1, foreign files byte-identical; every unlink is checked when it is issued.",
+   note=VFS_NOTE),
+ "C07": dict(engine="vfs", level=MC, design="§5, §7 C07",
+   technique="exhaustive history enumeration over record sizes straddling the limit (L-1..L+2, 1, multi-byte, embedded LF) on the real sink; per-file size/record-count oracle",
+   text="Every history up to the depth bound over records sized around each limit L (incl. multi-byte UTF-8 and embedded line feeds), with daily/startup rotation, compression and restarts: every file the sink wrote is located in the written stream and is <= L bytes or holds exactly one record; no record spans two files.",
+   note=VFS_NOTE),
+ "C09": dict(engine="vfs", level=MC, design="§5, §7 C09",
+   technique="exhaustive history enumeration with day jumps, restarts with stale virtual mtimes and retention on the real sink; per-file day/name oracle and rename-target monitor",
+   text="Every history up to the depth bound mixing writes, day jumps, size rotations, restarts and retention removals with daily rotation: each file holds records of one day, rotated names carry that day; rename targets never exist and were never used before; indices per date strictly increase.",
+   note=VFS_NOTE),
+})
+
 PENDING = {}
 
 def main():
